@@ -283,6 +283,9 @@ namespace bloch::runtime {
         int m_releaseDepth = 0;  // nested object releases in progress
         std::deque<Object*> m_deferredReleases;
         int m_destructorDepth = 0;  // user destructor bodies currently running (they nest)
+        // set when a dying object could not be emptied (its children's destructors keep storing
+        // new objects in it): the run is ending with a diagnostic and no further user destructor runs
+        bool m_abandonDestructors = false;
         std::unordered_map<const Expression*, std::vector<int>> m_measurements;
         std::unordered_map<std::string, std::unordered_map<std::string, int>> m_trackedCounts;
         // table names in the order their first outcome was recorded (the order they are shown in:
